@@ -90,10 +90,21 @@ def check(ctx: Ctx) -> str:
 
     ctx.rule("R4", "Macro.__call__ consumption protocol: positional args fill the first parameters, keywords fill the rest by name (missing otherwise), leftovers go to kwargs/varargs or raise TypeError; the result comes from _invoke")
     s = ast.unparse(mc.node)
+    # the by-name loop: over self.arguments[<number of positionals consumed>:], whatever the
+    # loop variable (and a local holding that number) is called
+    def _res(e: ast.AST) -> str:
+        if isinstance(e, ast.Name):
+            src = [a for a in ast.walk(mc.node) if isinstance(a, ast.Assign) and len(a.targets) == 1 and isinstance(a.targets[0], ast.Name) and a.targets[0].id == e.id]
+            if len(src) == 1:
+                return ast.unparse(src[0].value)
+        return ast.unparse(e)
+
+    by_name = [l for l in ast.walk(mc.node) if isinstance(l, ast.For) and isinstance(l.iter, ast.Subscript) and ast.unparse(l.iter.value) == "self.arguments" and isinstance(l.iter.slice, ast.Slice) and l.iter.slice.lower is not None and l.iter.slice.upper is None and _res(l.iter.slice.lower) == "len(arguments)" and isinstance(l.target, ast.Name)]
+    pv = by_name[0].target.id if len(by_name) == 1 else "name"  # type: ignore[attr-defined]
+    ctx.check(len(by_name) == 1, "call:remaining parameters by name", "runtime:Macro.__call__", "remaining parameters by name", "Macro.__call__ lost the step `for <param> in self.arguments[len(arguments):]`", mc.loc())
     for frag, what in (
         ("arguments = list(args[:self._argument_count])", "positional slice"),
-        ("for name in self.arguments[len(arguments):]:", "remaining parameters by name"),
-        ("value = kwargs.pop(name)", "keyword consumed"),
+        (f"value = kwargs.pop({pv})", "keyword consumed"),
         ("value = missing", "unfilled -> missing"),
         ("arguments.append(args[self._argument_count:])", "surplus positional -> varargs"),
         ("return self._invoke(arguments, autoescape)", "invoke"),
